@@ -1,0 +1,55 @@
+//go:build verif
+
+package model
+
+// Contracts for the deductive verifier in /verif (govc).  This file contains comments only;
+// it is compiled only with -tags verif and declares nothing.
+
+// ---- method entries (C08, C07) ---------------------------------------------------------------------------
+
+//@ spec wfMethod(m *MethodEntry) bool = m != nil && m.Method != nil && is(m.Method, *types.Func)
+//@ spec mSig(m *MethodEntry) *types.Signature = as(objType(m.Method), *types.Signature)
+//@ spec mNPar(m *MethodEntry) int = tupleLen(sigParams(mSig(m)))
+//@ spec mNRes(m *MethodEntry) int = tupleLen(sigResults(mSig(m)))
+//@ spec mParam(m *MethodEntry, i int) *types.Var = tupleAt(sigParams(mSig(m)), i)
+//@ spec mResult(m *MethodEntry, i int) *types.Var = tupleAt(sigResults(mSig(m)), i)
+//@ spec mResType(m *MethodEntry, i int) types.Type = typeOfObj(mResult(m, i))
+//@ spec retErr(m *MethodEntry) bool =
+//@     cond(m.Opts.Style == model.DstVarReturn, mNRes(m) > 0 && isErrorT(mResType(m, mNRes(m)-1)),
+//@          exists(i, 0, mNRes(m), isErrorT(mResType(m, i))))
+//@
+//@ func (*MethodEntry).Name(m) (r)
+//@   requires wfMethod(m)
+//@   ensures {C08} r == objName(m.Method)
+//@ func (*MethodEntry).SrcVar(m) (r)
+//@   requires wfMethod(m)
+//@   use T3(refOf(m.Method))
+//@   ensures {C08,C02} r == cond(mNPar(m) == 0, nil, mParam(m, 0))
+//@ func (*MethodEntry).DstVar(m) (r)
+//@   requires wfMethod(m)
+//@   use T3(refOf(m.Method))
+//@   ensures {C08,C02} r == cond(mNRes(m) == 0, nil, mResult(m, 0))
+//@ func (*MethodEntry).AdditionalArgVars(m) (r)
+//@   requires wfMethod(m)
+//@   use T3(refOf(m.Method))
+//@   ensures {C08} len(r) == cond(mNPar(m) <= 1, 0, mNPar(m) - 1)
+//@   ensures {C08,C14} forall(i, 0, len(r), r[i] == mParam(m, i+1) && r[i] != nil)
+//@   loop 1 invariant 0 <= i && i <= mNPar(m) && len(params) == mNPar(m) && fresh(params)
+//@   loop 1 invariant forall(j, 0, i, params[j] == mParam(m, j) && params[j] != nil)
+//@ func (*MethodEntry).Results(m) (r)
+//@   requires wfMethod(m)
+//@   use T3(refOf(m.Method))
+//@   ensures m.Opts.Style == model.DstVarReturn ==> len(r) == mNRes(m) && forall(i, 0, len(r), r[i] == mResType(m, i))
+//@   ensures m.Opts.Style != model.DstVarReturn ==> forall(j, 0, len(r), r[j] != nil && isErrorT(r[j]))
+//@   ensures m.Opts.Style != model.DstVarReturn ==> (len(r) > 0) == exists(i, 0, mNRes(m), isErrorT(mResType(m, i)))
+//@   ensures forall(j, 0, len(r), r[j] != nil)
+//@   loop 1 invariant 0 <= i && i <= mNRes(m) && (list == nil || fresh(list)) && forall(j, 0, len(list), list[j] != nil) && sameOld(list)
+//@   loop 1 invariant m.Opts.Style == model.DstVarReturn ==> len(list) == i && forall(j, 0, i, list[j] == mResType(m, j))
+//@   loop 1 invariant m.Opts.Style != model.DstVarReturn ==> forall(j, 0, len(list), isErrorT(list[j]))
+//@   loop 1 invariant m.Opts.Style != model.DstVarReturn ==> (len(list) > 0) == exists(j, 0, i, isErrorT(mResType(m, j)))
+//@ func (*MethodEntry).RetError(m) (r)
+//@   requires wfMethod(m)
+//@   ensures {C07,C08} r == retErr(m)
+//@ func (*MethodEntry).Recv(m) (r)
+//@   requires wfMethod(m)
+//@   use T3(refOf(m.Method))
